@@ -24,8 +24,8 @@ use vstd::std_specs::convert::*;
 
 
 def modules(repo):
-    from . import core_error, core_common, core_context, core_stringclasses, core_profile, profiles_common, nicknames
-    spec = Module('spec', None, [Text(rd('spec_spaces.rs')), Text(rd('spec_core.rs')), Text(rd('spec_stabilize.rs'))], header='use super::*;\nuse crate::vx::*;\n')
+    from . import core_error, core_common, core_context, core_stringclasses, core_profile, profiles_common, profiles_bidi, profiles_passwords, profiles_usernames, nicknames
+    spec = Module('spec', None, [Text(rd('spec_spaces.rs')), Text(rd('spec_core.rs')), Text(rd('spec_stabilize.rs')), Text(rd('spec_profiles.rs')), Text(rd('spec_bidi.rs'))], header='use super::*;\nuse crate::vx::*;\nuse crate::precis_core::DerivedPropertyValue;\n')
     core = Module('precis_core', None, [
         core_error.derived_property_enum(repo),
         core_error.module(repo),
@@ -36,6 +36,9 @@ def modules(repo):
     ], header='use super::*;\npub use self::error::{Error, UnexpectedError, CodepointInfo};\n')
     profiles = Module('precis_profiles', None, [
         profiles_common.module(repo),
+        profiles_bidi.module(repo),
+        profiles_passwords.module(repo),
+        profiles_usernames.module(repo),
         nicknames.module(repo),
     ], header='use super::*;\n')
     return [spec, core, profiles]
